@@ -339,7 +339,15 @@ class ExprMixin:
         for (l, r), s in self.ev_many([e.left, e.right], st):
             yield self.binop(e.op, l, r, s, e), s
 
+    def unopt_num(self, v, st, node):
+        """Optional[int] used as a number: None would raise TypeError"""
+        if not isinstance(v, SeqV) and v.ty.kind == 'opt' and v.ty.args[0].kind in ('int', 'bool'):
+            self.check(st, z3.Not(opt_is_none(v)), 'TypeError', 'none', node)
+            return opt_val(v)
+        return v
+
     def binop(self, op, l, r, st, node=None):
+        l, r = self.unopt_num(l, st, node), self.unopt_num(r, st, node)
         lk = 'seq' if isinstance(l, SeqV) else l.ty.kind
         rk = 'seq' if isinstance(r, SeqV) else r.ty.kind
         if lk in ('int', 'bool') and rk in ('int', 'bool'):
@@ -406,6 +414,7 @@ class ExprMixin:
         if isinstance(op, (ast.In, ast.NotIn)):
             m = self.contains(r, l, st, node)
             return z3.Not(m) if isinstance(op, ast.NotIn) else m
+        l, r = self.unopt_num(l, st, node), self.unopt_num(r, st, node)
         lk = 'seq' if isinstance(l, SeqV) else l.ty.kind
         rk = 'seq' if isinstance(r, SeqV) else r.ty.kind
         if lk in ('int', 'bool') and rk in ('int', 'bool'):
